@@ -25,6 +25,7 @@ import (
 	"path/filepath"
 	"reflect"
 	"sort"
+	"strconv"
 	"strings"
 )
 
@@ -578,7 +579,7 @@ func GenV(r *Result) string {
 	b.WriteString("     cd /verif/tools/goextract-c09 && go run . -repo /repo -out /verif/coq/C09/Gen.v\n")
 	b.WriteString("   The C09 harness re-derives this table from the sources it was built from on every run and\n")
 	b.WriteString("   compares it with [sites]/[recvs] below. *)\n")
-	b.WriteString("From Coq Require Import List String.\nFrom V.C09 Require Import Modes.\nImport ListNotations.\nLocal Open Scope string_scope.\n\n")
+	b.WriteString("From Coq Require Import List String NArith.\nFrom V.C09 Require Import Modes.\nImport ListNotations.\nLocal Open Scope string_scope.\n\n")
 	b.WriteString("(* (function, holder variable, field) -> access mode; kind and proto label of the field *)\n")
 	b.WriteString("Definition sites : list site := [\n")
 	for i, s := range r.Sites {
@@ -598,6 +599,12 @@ func GenV(r *Result) string {
 		fmt.Fprintf(&b, "  mk_recv \"%s\" \"%s\" \"%s\" %s%s (* line %d *)\n", s.Func, s.Var, s.Msg, recvTerm(s.Mode), sep, s.Line)
 	}
 	b.WriteString("].\n")
+	sc, err := CoqSchema(r)
+	if err != nil {
+		sc = "[] (* " + err.Error() + " *)"
+	}
+	b.WriteString("\n(* field tables of the protobuf messages the wire model decodes (struct tags of x.pb.go), by field number *)\n")
+	b.WriteString("Local Open Scope N_scope.\nDefinition msgs : schema := " + sc + ".\n")
 	return b.String()
 }
 
@@ -607,6 +614,87 @@ func recvTerm(h string) string {
 		return "Getter"
 	}
 	return h
+}
+
+
+// WireRoots: the messages whose wire decoding the C09 model covers (closure over embedded messages is taken).
+var WireRoots = []string{"Transaction", "TransactionSlice", "BlockHeader", "Block", "Member", "GroupHeader", "Group"}
+
+// SchemaClosure lists the messages reachable from WireRoots, roots first, in a fixed order.
+func SchemaClosure(r *Result) []string {
+	var out []string
+	seen := map[string]bool{}
+	var visit func(string)
+	visit = func(m string) {
+		if seen[m] {
+			return
+		}
+		seen[m] = true
+		out = append(out, m)
+		for _, f := range r.Msgs[m] {
+			if f.Elem != "" {
+				visit(f.Elem)
+			}
+		}
+	}
+	for _, m := range WireRoots {
+		visit(m)
+	}
+	return out
+}
+
+func kindTerm(f PbField) (string, error) {
+	switch f.Kind {
+	case "ptr":
+		switch f.GoTy {
+		case "*uint64":
+			if f.Wire == "varint" {
+				return "FVar64", nil
+			}
+		case "*int32":
+			if f.Wire == "varint" {
+				return "FVar32", nil
+			}
+		case "*string":
+			return "FStr", nil
+		}
+	case "bytes":
+		return "FBytes", nil
+	case "repbytes":
+		return "FRepBytes", nil
+	case "msg":
+		return "(FMsg \"" + f.Elem + "\")", nil
+	case "repmsg":
+		return "(FRepMsg \"" + f.Elem + "\")", nil
+	}
+	return "", fmt.Errorf("field %s of Go type %s / wire %s is outside the modelled kinds", f.Name, f.GoTy, f.Wire)
+}
+
+// CoqSchema renders the field tables (sorted by field number, as the marshaler orders them) as a Coq term of type schema.
+func CoqSchema(r *Result) (string, error) {
+	var ms []string
+	for _, m := range SchemaClosure(r) {
+		fs := append([]PbField{}, r.Msgs[m]...)
+		sort.SliceStable(fs, func(i, j int) bool {
+			a, _ := strconv.Atoi(fs[i].Num)
+			b, _ := strconv.Atoi(fs[j].Num)
+			return a < b
+		})
+		var l []string
+		for _, f := range fs {
+			k, err := kindTerm(f)
+			if err != nil {
+				return "", fmt.Errorf("message %s: %v", m, err)
+			}
+			req := "false"
+			if f.Label == "req" {
+				req = "true"
+			}
+			l = append(l, fmt.Sprintf("mk_fd %s \"%s\" %s %s", f.Num, f.Name, k, req))
+		}
+		ms = append(ms, "(\""+m+"\", ["+strings.Join(l, "; ")+"])")
+	}
+	return "[" + strings.Join(ms, ";\n  ") + "]", nil
 }
 
 // CoqLists renders sites and recvs as two Coq list terms (list site, list recv), for the harness case.
